@@ -173,11 +173,32 @@ type color_eyre_result<T> = Result<T, ()>;
 
 pub struct TreeCtx {
     pub inst: Option<Inst>,
+    armed: i64,
+    dirs: Vec<std::path::PathBuf>,
+    counter: usize,
 }
+
+impl Drop for TreeCtx {
+    fn drop(&mut self) {
+        self.inst = None;
+        for d in self.dirs.drain(..) {
+            let _ = std::fs::remove_dir_all(d);
+        }
+    }
+}
+
+/// storage configurations of C16 (path is always explicit, `temporary` false)
+const PM_CONFIGS: [&str; 5] = [
+    "",
+    ", \"cache_capacity\": 1048576, \"flush_every_ms\": 500",
+    ", \"mode\": \"LowSpace\"",
+    ", \"mode\": \"HighThroughput\", \"cache_capacity\": 65536",
+    ", \"use_compression\": false, \"flush_every_ms\": 5",
+];
 
 impl TreeCtx {
     pub fn new() -> Self {
-        TreeCtx { inst: None }
+        TreeCtx { inst: None, armed: -1, dirs: Vec::new(), counter: 0 }
     }
     pub fn exec(&mut self, w: &[&str]) -> Option<String> {
         if w[0] == "tree" && w.len() == 4 && w[1] == "new" {
@@ -187,9 +208,86 @@ impl TreeCtx {
                 "full" => Inst::Full(FullMerkleTree::<PoseidonHash>::default(depth).ok()?),
                 "opt" => Inst::Opt(OptimalMerkleTree::<PoseidonHash>::default(depth).ok()?),
                 "pm" => Inst::Pm(<PmTree as ZerokitMerkleTree>::default(depth).ok()?, None),
+                "pmdisk" => {
+                    // a fresh on-disk location per instance; removed when the context is dropped
+                    self.counter += 1;
+                    let dir = std::env::temp_dir().join(format!("zkh-{}-{}", std::process::id(), self.counter));
+                    let _ = std::fs::remove_dir_all(&dir);
+                    self.dirs.push(dir.clone());
+                    let extra = PM_CONFIGS[self.counter % PM_CONFIGS.len()];
+                    let cfg = format!("{{\"path\": \"{}\", \"temporary\": false{}}}", dir.display(), extra);
+                    let c = PmtreeConfig::from_str(&cfg).ok()?;
+                    Inst::Pm(PmTree::new(depth, Fr::from(0u64), c).ok()?, Some(cfg))
+                }
                 _ => return Some("bad-op".into()),
             });
             return Some("ok".into());
+        }
+        // ---- persistent-backend-only ops: close / reopen / metadata / storage-failure injection (hook H1)
+        match (w[0], w.len()) {
+            ("close", 1) => {
+                return Some(match self.inst.as_mut() {
+                    Some(Inst::Pm(t, _)) => res(t.close_db_connection()),
+                    _ => "bad-op".into(),
+                })
+            }
+            ("reopen", 2) => {
+                let depth: usize = w[1].parse().ok()?;
+                let cfg = match self.inst.take() {
+                    Some(Inst::Pm(t, Some(cfg))) => {
+                        drop(t);
+                        cfg
+                    }
+                    other => {
+                        self.inst = other;
+                        return Some("bad-op".into());
+                    }
+                };
+                let c = PmtreeConfig::from_str(&cfg).ok()?;
+                return Some(match PmTree::new(depth, Fr::from(0u64), c) {
+                    Ok(t) => {
+                        self.inst = Some(Inst::Pm(t, Some(cfg)));
+                        "ok".into()
+                    }
+                    Err(_) => "err".into(),
+                });
+            }
+            ("meta", 3) if w[1] == "set" => {
+                let b = parse_bytes(w[2])?;
+                return Some(match self.inst.as_mut() {
+                    Some(Inst::Pm(t, _)) => res(t.set_metadata(&b)),
+                    Some(Inst::Full(t)) => res(t.set_metadata(&b)),
+                    Some(Inst::Opt(t)) => res(t.set_metadata(&b)),
+                    None => "bad-op".into(),
+                });
+            }
+            ("meta", 2) if w[1] == "get" => {
+                let r = match self.inst.as_ref() {
+                    Some(Inst::Pm(t, _)) => t.metadata(),
+                    Some(Inst::Full(t)) => t.metadata(),
+                    Some(Inst::Opt(t)) => t.metadata(),
+                    None => return Some("bad-op".into()),
+                };
+                return Some(match r {
+                    Ok(b) => show_bytes(&b),
+                    Err(_) => "err".into(),
+                });
+            }
+            ("arm", 2) => {
+                let k: i64 = w[1].parse().ok()?;
+                zerokit_utils::pm_tree::sled_adapter::verif_hook::arm(k);
+                self.armed = k;
+                return Some("ok".into());
+            }
+            // did the injected failure fire since `arm`? (then disarm)
+            ("fired", 1) => {
+                let c = zerokit_utils::pm_tree::sled_adapter::verif_hook::calls();
+                let k = self.armed;
+                zerokit_utils::pm_tree::sled_adapter::verif_hook::arm(-1);
+                self.armed = -1;
+                return Some(format!("{}", k >= 0 && c > k));
+            }
+            _ => {}
         }
         match self.inst.as_mut() {
             Some(Inst::Full(t)) => exec_on(t, w),
@@ -200,7 +298,3 @@ impl TreeCtx {
     }
 }
 
-#[allow(dead_code)]
-pub fn pm_config(path: &str, extra: &str) -> Option<PmtreeConfig> {
-    PmtreeConfig::from_str(&format!("{{\"path\": \"{}\", \"temporary\": false{}}}", path, extra)).ok()
-}
